@@ -1376,11 +1376,10 @@ class VM:
 
         def reduce_fn(*args):
             callback = args[0] if args else None
-            initial = args[1] if len(args) > 1 else UNDEFINED
             require_callable(callback, "reduce callback")
-            acc = initial
+            acc = args[1] if len(args) > 1 else UNDEFINED
             start_idx = 0
-            if acc is UNDEFINED:
+            if len(args) < 2:  # an explicit undefined is an initial value
                 if not arr._elements:
                     raise JSTypeError("Reduce of empty array with no initial value")
                 acc = arr._elements[0]
@@ -1394,12 +1393,11 @@ class VM:
 
         def reduceRight_fn(*args):
             callback = args[0] if args else None
-            initial = args[1] if len(args) > 1 else UNDEFINED
             require_callable(callback, "reduceRight callback")
-            acc = initial
+            acc = args[1] if len(args) > 1 else UNDEFINED
             length = len(arr._elements)
             start_idx = length - 1
-            if acc is UNDEFINED:
+            if len(args) < 2:  # an explicit undefined is an initial value
                 if not arr._elements:
                     raise JSTypeError("Reduce of empty array with no initial value")
                 acc = arr._elements[length - 1]
